@@ -1,5 +1,5 @@
 (* C05 - Every slice handed out points into live memory (ownership protocol; PARTIAL, see DESIGN.md). *)
-From Coq Require Import List Arith.
+From Coq Require Import List Arith NArith.
 From WP Require Import iovec.Anchors.
 Import ListNotations.
 
@@ -35,6 +35,36 @@ Example C05_example :
   anchors g = [{| acount := 1; achunk := Some 1 |}; {| acount := 2; achunk := Some 2 |}; {| acount := 1; achunk := Some 1 |}].
 Proof. vm_compute. split; reflexivity. Qed.
 
+(* ---- the geometry-faithful model ----
+   iovec/Geo.v models OwningIovec with slices as pointers into arena chunks, the allocation cache, anchors with counts
+   and chunks, and computes every copy / borrow / merge decision and every chunk identity (nothing is given).  Its
+   projection (chunk of every slice, anchors) follows the protocol above step by step, so in every state a history of
+   one OwningIovec reaches: the ownership invariant holds; every arena slice lies inside the bytes written to an existing
+   chunk, within its capacity, and that chunk is held by one of the iovec's anchors (Arc semantics: not released);
+   and two slices of one chunk never overlap (distinct owned allocations are disjoint). *)
+From WP Require iovec.Geo iovec.GeoHistory iovec.GeoAnchors.
+Theorem C05_geo_ownership ops h' g' xs :
+  GeoHistory.g1run [] Geo.empty_iov ops = Some (h', g', xs) ->
+  Inv (GeoAnchors.proj g') /\
+  (forall p c off len, nth_error (Geo.gslices g') p = Some (Geo.SArena c off len) ->
+     In c (Geo.holders g') /\ (c < length h')%nat /\ (0 < len)%N /\
+     (off + len <= Geo.nlen (Geo.cdata (Geo.chunk_at h' c)))%N /\
+     (Geo.nlen (Geo.cdata (Geo.chunk_at h' c)) <= Geo.ccap (Geo.chunk_at h' c))%N) /\
+  (forall i j c oi li oj lj, i < j -> nth_error (Geo.gslices g') i = Some (Geo.SArena c oi li) ->
+     nth_error (Geo.gslices g') j = Some (Geo.SArena c oj lj) -> (oi + li <= oj)%N).
+Proof. exact (GeoAnchors.geo_ownership ops h' g' xs). Qed.
+
+(* non-vacuity: anchored input that is borrowed (300 bytes) next to copies, a chunk roll-over, consumption *)
+Example C05_geo_example :
+  match GeoHistory.g1run [] Geo.empty_iov
+          [GeoHistory.HPushCopy (repeat 1%N 4000); GeoHistory.HAnchored (repeat 2%N 300); GeoHistory.HPushCopy (repeat 3%N 10);
+           GeoHistory.HConsume 1%N; GeoHistory.HPush (repeat 4%N 100)] with
+  | Some (h, g, _) => length h = 2 /\ Geo.holders g = [0; 1; 1] /\ length (Geo.gslices g) = 2
+  | None => False
+  end.
+Proof. vm_compute. repeat split; reflexivity. Qed.
+
 Print Assumptions C05_core.
+Print Assumptions C05_geo_ownership.
 Print Assumptions C05_release_only_unreachable.
 Print Assumptions C05_anchored_window.
